@@ -91,3 +91,14 @@ CHECKS['C02'] = dict(
     text='Decides no-fusion for about 2300 windows x boundary classes per table, the complete table of semicolon contexts (268 site x context x table cells) and that continuation stripping is the only literal rewrite. The C05 findings are assumed for re-lexing of `/`.',
     ref='DESIGN.md section 3 C02',
     note='Trusted: as C01.')
+
+CHECKS['C06'] = dict(
+    technique='static analysis: token regexes compiled from source to DFAs over character-class atoms (CPython re._parser as front end) and compared with ES5 reference automata; ply rule order reconstructed and every ordered rule pair checked for ordered-choice = longest-match; effect analysis of token attribute stores; decision tables of the line/column bookkeeping by abstract evaluation',
+    text='Decides the lexical tables: white-space/terminator/comment languages (automata equivalence), longest-first for all 1500+ ordered rule pairs, exact keyword set, no token rewriting, one line-index update per token. ply\'s own offset bookkeeping is outside the repository.',
+    ref='DESIGN.md section 3 C06',
+    note='Trusted: CPython re._parser, transcription of ply.lex rule ordering, ES5 7.2-7.6 reference sets, assumption that each rule\'s Python regex match is its longest match (checked for the look-ahead alternatives).')
+CHECKS['C19'] = dict(
+    technique='static analysis: agreement of two literal grammars - STRING/NUMBER lexer automata restricted to JSON spellings vs Python string-escape / number semantics (embedded reference tables), plus the shape of the extractor definitions',
+    text='Decides literal-spelling agreement ES5 <-> literal_eval only (9 escapes, number sub-language inclusion, true/false/null). The value pipeline of the extractor is NOT decided.',
+    ref='DESIGN.md section 3 C19',
+    note='Narrow claim. Trusted: ES5 7.8.4 table, Python escape table, RFC 8259 number grammar.')
